@@ -2,8 +2,8 @@
 from pyvc.native import *      # noqa: F401,F403
 
 CONTEXT_FILE = 'frappy/modulebase.py'
-SOURCES = ['frappy/modulebase.py', 'frappy/errors.py']
-GHOSTS = ['poll_calls', 'wakeups']
+SOURCES = ['frappy/modulebase.py', 'frappy/secnode.py', 'frappy/errors.py']
+GHOSTS = ['poll_calls', 'wakeups', 'life']
 ASSUMPTIONS = [
     'A3/A6/A7 as for the other properties',
     'read / poll functions are abstract callables: any result, any Exception (recorded in the ghost log poll_calls)',
@@ -19,8 +19,10 @@ CLASSES = {
     'PollInfo': dict(fields={'pending_errors': 'set', 'interval': 'any', 'last_main': 'any', 'last_slow': 'any', 'fast_flag': 'any',
                              'trigger_event': 'Event'}),
     'Module': dict(fields={'name': 'str', 'pollInfo': 'PollInfo|none', 'log': 'any', 'pollinterval': 'any', 'enablePoll': 'bool',
-                           'writeDict': 'dict', 'polledModules': 'list:Module', 'triggerPoll': 'any', 'initModuleDone': 'any'},
-                   dyn_fields={'io': 'Module'}),
+                           'writeDict': 'dict', 'polledModules': 'list:Module', 'triggerPoll': 'any', 'initModuleDone': 'any',
+                           'earlyInitDone': 'any', '_isinitialized': 'bool'},
+                   dyn_fields={'io': 'Module'}, virtual=['earlyInit', 'initModule']),
+    'SecNode': dict(fields={'errors': 'list', 'traceback_counter': 'int', 'log': 'any', 'modules': 'dict'}),
 }
 
 def InThread(m, has_io):
@@ -137,6 +139,29 @@ CONTRACTS = [
                   'normal': 'implies(self.pollInfo is not None and not flag, same_value(self.pollInfo.interval, self.pollinterval))',
                   'flag': 'implies(self.pollInfo is not None, self.pollInfo.fast_flag is flag and len(wakeups) == len(old(wakeups)) + 1)',
                   'no_thread': 'implies(self.pollInfo is None, wakeups == old(wakeups))'},
+         raises='never'),
+    # ---- C15: a module is marked initialised only after its earlyInit / initModule ran: while they run (and may reach other
+    #      modules through attachments, re-entering get_module) it must not yet count as initialised - otherwise a cyclic
+    #      attachment hands out a half-initialised module instead of ending in a reported error.  Stated as the precondition of the
+    #      (abstract) init methods, i.e. as a call-site obligation in get_module.
+    dict(key='SecNode.get_module_instance', file=None, func=None, signature='self, modulename', serves=[], trusted=True, requires=[],
+         ensures={'inv': 'result is None or inv(result)'}, raises='never', result_kind='Module|none', result_type='Module'),
+    dict(key='iface::Module.earlyInit', file=None, func=None, signature='self', serves=[], trusted=True,
+         requires=['self._isinitialized is False'], modifies=['self.earlyInitDone'], ghost_modifies=['life'],
+         ensures={'logged': "life == old(life) + [('early', self)]", 'inv': 'inv(self)'},
+         raises={'logged': "life == old(life) + [('early', self)]", 'inv': 'inv(self)'}),
+    dict(key='iface::Module.initModule', file=None, func=None, signature='self', serves=[], trusted=True,
+         requires=['self._isinitialized is False'], modifies=['self.initModuleDone', 'polledModules', 'triggerPoll'], ghost_modifies=['life'],
+         ensures={'logged': "life == old(life) + [('init', self)]", 'inv': 'inv(self)'},
+         raises={'logged': "life == old(life) + [('init', self)]", 'inv': 'inv(self)'}),
+    dict(key='traceback.format_exc', file=None, func=None, signature='', serves=[], trusted=True, requires=[],
+         ensures={'text': 'is_str(result)'}, raises='never', result_kind='str'),
+    dict(key='SecNode.get_module', file='frappy/secnode.py', func='SecNode.get_module', serves=['C15'], self_type='SecNode',
+         params={'modulename': 'str'}, requires=['inv(self)'],
+         modifies=['errors', 'traceback_counter', '_isinitialized', 'earlyInitDone', 'initModuleDone', 'polledModules', 'triggerPoll'],
+         ghost_modifies=['life'], check_frame=False,
+         ensures={'initialised': 'result is None or result._isinitialized is True',
+                  'early_then_init': 'len(life) <= len(old(life)) + 2'},
          raises='never'),
     # ---- C15: a module that is polled OR has configured values to write is handed to a poll thread (its own or its io module's)
     dict(key='threading.Event', file=None, func=None, signature='', serves=[], trusted=True, requires=[], ensures={}, raises='never',
